@@ -30,7 +30,7 @@ type sym struct {
 	sc uint
 }
 
-const maxFloatScale = 24
+const maxFloatScale = 60
 
 func pow2(n uint) *big.Int { return new(big.Int).Lsh(big.NewInt(1), n) }
 
@@ -651,6 +651,15 @@ func (i *Interp) symFloatBinop(op token.Token, k types.BasicKind, x, y value) va
 		switch op {
 		case token.MUL:
 			rsc = xi.sc + yi.sc
+			// multiplying a fixed-point value by a concrete 2^e only moves the binary point
+			for _, pr := range [][2]*sym{{xi, yi}, {yi, xi}} {
+				a, b := pr[0], pr[1]
+				if b.sc == 0 && b.lo.Cmp(b.hi) == 0 && b.lo.Sign() > 0 && a.sc > 0 {
+					if e := uint(b.lo.BitLen() - 1); pow2(e).Cmp(b.lo) == 0 && e <= a.sc {
+						return i.norm(sym{t: a.t, k: k, lo: a.lo, hi: a.hi, sc: a.sc - e})
+					}
+				}
+			}
 		case token.QUO:
 			// division by a concrete power of two only moves the binary point
 			rsc = maxFloatScale + 1
